@@ -276,6 +276,14 @@ def sphinx_project(R, math_front=False, html_image=False):
         files[nm + ".md"] += "\n[W](wiki:W)\n"
     # figure-md in a document WITHOUT front matter works on the project's own configuration object
     files["a_leak8.md"] = "# Leak8\n\n```{figure-md} fig-w\n<img src=\"k.png\" alt=\"w\">\n\ncaption w\n```\n\n<img src=\"after-figure.png\" alt=\"same document, after the figure\">\n"
+    # documents with the same file name in different directories, and a shared file included by two documents, each with a numbered equation:
+    # whatever key MyST generates for it in the project-wide math domain must not make one document's warnings depend on the other
+    files["a_leak9/z_obs2.md"] = "# Leak9\n\n\\begin{equation}\nleak = 9\n\\end{equation}\n\n```{include} ../shared_eq.inc\n```\n"
+    files["z_obs2.md"] += "\n\\begin{equation}\nobs = 2\n\\end{equation}\n\n```{include} shared_eq.inc\n```\n"
+    files["sub/d00.md"] = "# Sub d00\n\n\\begin{equation}\nsub = 0\n\\end{equation}\n"
+    files["sub/deeper/d00.md"] = "# Deeper d00\n\n\\begin{equation}\ndeeper = 0\n\\end{equation}\n\n\\begin{align}\nx &= 1\n\\end{align}\n"
+    files["shared_eq.inc"] = "\\begin{gather}\nshared = 1\n\\end{gather}\n"
+    files["index.md"] = "\n".join(["# Index", "", "```{toctree}"] + sorted(n[:-3] for n in files if n.endswith(".md") and n != "index.md") + ["```", ""])
     if html_image:
         # the project itself enables what figure-md switches on temporarily: it must still be on afterwards
         conf["myst_enable_extensions"] = conf["myst_enable_extensions"] + ["html_image", "html_admonition"]
